@@ -374,6 +374,8 @@ def _dcl_cfg(maxobj, creates, sends, reuse, dev=(), inv=DCL_INV, forward=True, s
     if forward:
         lines.append("PROPERTY StateForward")
     lines += ["PROPERTY " + x for x in props]
+    if spec == "Spec":
+        lines.append("VIEW View")      # `act` is history
     lines.append("CHECK_DEADLOCK FALSE")
     return "\n".join(lines) + "\n"
 
